@@ -123,3 +123,155 @@ pub proof fn lemma_ido_fits(i: Interval, t: nat)
         assert(0int % (i.stride as int) == 0) by { vstd::arithmetic::div_mod::lemma_small_mod(0, i.stride as nat); }
     }
 }
+
+pub proof fn lemma_ido_neg_wf(x: Bitvector)
+    requires x.wf()
+    ensures bv_neg(x).wf(), bv_neg(x).w@ == x.w@,
+{
+    lemma_trunc_range(x.w@, -(x.u@ as int));
+}
+pub open spec fn ido_neg_opt(h: Option<Bitvector>) -> Option<Bitvector> {
+    match h { Some(b) => Some(bv_neg(b)), None => None }
+}
+
+/// a hint that is kept only when it lies strictly below / above the new bound
+pub open spec fn ido_keep_below(h: Option<Bitvector>, start: Bitvector) -> Option<Bitvector> {
+    if h is Some && h->Some_0.s() < start.s() { h } else { None }
+}
+pub open spec fn ido_keep_above(h: Option<Bitvector>, end: Bitvector) -> Option<Bitvector> {
+    if h is Some && h->Some_0.s() > end.s() { h } else { None }
+}
+pub open spec fn ido_subpiece_opt(h: Option<Bitvector>, low: nat, t: nat) -> Option<Bitvector> {
+    match h { Some(b) => Some(pcode_subpiece(b, low, t)), None => None }
+}
+
+/// subpiece_lower keeps a hint only when its (wrapped, unsigned) distance from the bound is below 2^t - 1
+pub open spec fn ido_near(minuend: Bitvector, subtrahend: Bitvector, t: nat) -> bool {
+    bv_sub(minuend, subtrahend).u@ < p2(t) - 1
+}
+
+/// SUBPIECE(low, t) is SUBPIECE(0, t) of SUBPIECE(low, w - low); SUBPIECE(0, w) is the identity
+pub proof fn lemma_ido_subpiece_compose(x: Bitvector, low: nat, t: nat)
+    requires x.wf(), 1 <= t, low + t <= x.w@
+    ensures pcode_subpiece(pcode_subpiece(x, low, (x.w@ - low) as nat), 0, t) == pcode_subpiece(x, low, t),
+            pcode_subpiece(x, 0, x.w@) == x,
+{
+    let w = x.w@;
+    let u = x.u@;
+    let a = p2(low);
+    let b = p2((w - low) as nat);
+    let q = u / a;
+    lemma_p2(low); lemma_p2_mono(low, w); lemma_p2_consts();
+    vstd::arithmetic::div_mod::lemma_fundamental_div_mod(u as int, a as int);
+    vstd::arithmetic::div_mod::lemma_mod_bound(u as int, a as int);
+    assert(q < b) by (nonlinear_arith)
+        requires u == a * q + u % a, 0 <= u % a, u < a * b, a > 0, q == u / a;
+    vstd::arithmetic::div_mod::lemma_small_mod(q, b);
+    assert(q / 1 == q);
+    assert(u / 1 == u);
+    vstd::arithmetic::div_mod::lemma_small_mod(u, p2(w));
+}
+
+// ---------------- cast: POPCOUNT / LZCOUNT --------------------------------------------------------
+
+/// a small count, stored in t bits, reads as itself (signed and unsigned) and survives truncation / resize
+pub proof fn lemma_ido_small(t: nat, n: nat)
+    requires 1 <= t <= MAXW(), n < p2((t - 1) as nat),
+    ensures n < p2(t), bv(t, n).wf(), bv(t, n).s() == n, trunc(t, n as int) == n, n % p2(t) == n,
+{
+    lemma_p2(t);
+    lemma_sval(t, n);
+    lemma_trunc_id(t, n as int);
+}
+
+pub proof fn lemma_ido_bitlen_mono(a: nat, b: nat)
+    requires a <= b
+    ensures bitlen(a) <= bitlen(b),
+    decreases b
+{
+    if a != 0 { lemma_ido_bitlen_mono(a / 2, b / 2); }
+}
+
+/// values with the top bit set have full bit length, all others less
+pub proof fn lemma_ido_bitlen_top(w: nat, u: nat)
+    requires 1 <= w, u < p2(w),
+    ensures (u >= p2((w - 1) as nat)) == (bitlen(u) == w), bitlen(u) <= w,
+    decreases w
+{
+    lemma_p2(w); lemma_p2_consts();
+    lemma_count_bounds(w, u);
+    if u < p2((w - 1) as nat) {
+        lemma_count_bounds((w - 1) as nat, u);
+    } else if w == 1 {
+        assert(u == 1);
+        assert(bitlen(1) == 1 + bitlen(0)) by { reveal_with_fuel(bitlen, 2); }
+    } else {
+        lemma_p2((w - 1) as nat);
+        lemma_ido_bitlen_top((w - 1) as nat, u / 2);
+    }
+}
+
+/// number of leading zero bits (the oracle's LZCOUNT before it is stored in the output width)
+pub open spec fn ido_lz(x: Bitvector) -> int { x.w@ - bitlen(x.u@) }
+
+/// LZCOUNT over a signed interval: 0..w always; between the counts of the bounds when those are ordered
+pub proof fn lemma_ido_lzcount(i: Interval, x: Bitvector)
+    requires i.inv(), i.gamma(x),
+    ensures 0 <= ido_lz(x) <= i.w(), 0 <= ido_lz(i.start) <= i.w(), 0 <= ido_lz(i.end) <= i.w(),
+        ido_lz(i.start) >= ido_lz(i.end) ==> ido_lz(i.end) <= ido_lz(x) <= ido_lz(i.start),
+{
+    let w = i.w();
+    lemma_ido_bitlen_top(w, x.u@); lemma_ido_bitlen_top(w, i.start.u@); lemma_ido_bitlen_top(w, i.end.u@);
+    lemma_sval(w, x.u@); lemma_sval(w, i.start.u@); lemma_sval(w, i.end.u@);
+    if i.start.s() >= 0 {
+        lemma_ido_bitlen_mono(i.start.u@, x.u@); lemma_ido_bitlen_mono(x.u@, i.end.u@);
+    }
+}
+
+/// PIECE of a constant upper part with a hint of the lower part
+pub open spec fn ido_piece_hint(hi: Interval, h: Option<Bitvector>, o: Option<Bitvector>) -> bool {
+    o is Some ==> hi.start == hi.end && h is Some && o->Some_0 == pcode_bin(BinOpType::Piece, hi.start, h->Some_0)->Some_0
+}
+
+// ---------------- bin_op: results of the oracle are well-formed values of the output width ----------------
+
+/// operand sizes P-Code requires at the level of abstract values (Piece: total width; BOOL_*: 1-byte booleans;
+/// shifts: any amount size; everything else: equal widths)
+pub open spec fn ido_wellsized(op: BinOpType, wa: nat, wb: nat) -> bool {
+    if op is Piece { wa + wb <= MAXW() }
+    else if is_shift_binop(op) { true }
+    else { wa == wb && ((op is BoolAnd || op is BoolOr || op is BoolXOr) ==> wa == 8) }
+}
+
+pub proof fn lemma_ido_pcode_bin_wf(op: BinOpType, x: Bitvector, y: Bitvector)
+    requires x.wf(), y.wf(), ido_wellsized(op, x.w@, y.w@), pcode_bin(op, x, y) is Some,
+    ensures (pcode_bin(op, x, y)->Some_0).wf(), (pcode_bin(op, x, y)->Some_0).w@ == out_bits(op, x.w@, y.w@),
+{
+    let w = x.w@;
+    let (ua, ub) = (x.u@, y.u@);
+    lemma_p2_consts(); lemma_p2(w);
+    match op {
+        BinOpType::Piece => { lemma_piece(x, y); }
+        BinOpType::IntAdd => { lemma_trunc_range(w, (ua + ub) as int); }
+        BinOpType::IntSub => { lemma_trunc_range(w, ua - ub); }
+        BinOpType::IntMult => { lemma_trunc_range(w, (ua * ub) as int); }
+        BinOpType::IntXOr | BinOpType::BoolXOr | BinOpType::IntAnd | BinOpType::BoolAnd | BinOpType::IntOr | BinOpType::BoolOr => {
+            lemma_bits_bound(w, ua, ub);
+        }
+        BinOpType::IntLeft => { if ub < w { lemma_trunc_range(w, (ua * p2(ub)) as int); } }
+        BinOpType::IntRight => {
+            if ub < w {
+                lemma_p2(ub);
+                lemma_div_pos(ua as int, p2(ub) as int);
+            }
+        }
+        BinOpType::IntSRight => { if ub < w { lemma_trunc_range(w, x.s() / (p2(ub) as int)); } }
+        BinOpType::IntDiv => {
+            lemma_div_pos(ua as int, ub as int);
+        }
+        BinOpType::IntRem => { vstd::arithmetic::div_mod::lemma_mod_bound(ua as int, ub as int); }
+        BinOpType::IntSDiv => { lemma_trunc_range(w, tdiv(x.s(), y.s())); }
+        BinOpType::IntSRem => { lemma_trunc_range(w, trem(x.s(), y.s())); }
+        _ => {}
+    }
+}
